@@ -717,3 +717,77 @@ func cfgNilEntries(ctx *Ctx, r *Report) {
 	r.Count("configuration slices of pointers", n)
 	r.Floor("configuration slices of pointers", 2)
 }
+
+// c04PathInvariant: ast.Path values are never empty — Last(), RemoveLast() and `p[len(p)-1]` rely on it. Checked on the
+// producers: MakePath rejects the empty input with an error, no function returns an empty Path literal (or nil) together
+// with a nil error, no empty Path literal is built anywhere.
+func c04PathInvariant(ctx *Ctx, r *Report) {
+	pathT := ctx.LookupType("internal/ast", "Path")
+	if pathT == nil {
+		r.Undecided("anchor lost: ast.Path")
+		return
+	}
+	// (a) MakePath
+	fn := ctx.LookupMethod("internal/ast", "Builder", "MakePath")
+	fd, p := ctx.DeclOf(fn)
+	if fd == nil {
+		r.Undecided("anchor lost: ast.Builder.MakePath")
+	} else {
+		info := p.TypesInfo
+		guard := false
+		for _, st := range fd.Body.List {
+			is, ok := st.(*ast.IfStmt)
+			if !ok || len(is.Body.List) == 0 {
+				continue
+			}
+			be, ok := ast.Unparen(is.Cond).(*ast.BinaryExpr)
+			if !ok || be.Op != token.EQL {
+				continue
+			}
+			emptyTest := false
+			for _, side := range []ast.Expr{be.X, be.Y} {
+				if tv, ok := info.Types[side]; ok && tv.Value != nil && tv.Value.Kind() == constant.String && constant.StringVal(tv.Value) == "" {
+					emptyTest = true
+				}
+			}
+			if rs, ok := is.Body.List[len(is.Body.List)-1].(*ast.ReturnStmt); ok && emptyTest && len(rs.Results) == 2 && !isNilIdent(info, rs.Results[1]) {
+				guard = true
+			}
+		}
+		r.Check(guard, "frontier/non-empty-path", "ast.Builder.MakePath rejects the empty path", fd.Pos(), "an empty input is an error",
+			"MakePath no longer returns an error for an empty input: it hands out an empty Path, on which compose / add_assignment / the converter take the last element — index out of range [-1]")
+	}
+	// (b) empty literals and nil paths returned with a nil error
+	n := 0
+	ctx.AllFuncDecls(func(p *packages.Package, fd *ast.FuncDecl, obj *types.Func) {
+		if fd.Body == nil {
+			return
+		}
+		info := p.TypesInfo
+		sig := obj.Type().(*types.Signature)
+		returnsPathErr := sig.Results().Len() == 2 && namedOf(sig.Results().At(0).Type()) == pathT && isErrorType(sig.Results().At(1).Type())
+		k := 0
+		ast.Inspect(fd.Body, func(m ast.Node) bool {
+			switch x := m.(type) {
+			case *ast.FuncLit:
+				return false
+			case *ast.CompositeLit:
+				if namedOf(info.TypeOf(x)) == pathT {
+					if _, isSlice := info.TypeOf(x).Underlying().(*types.Slice); isSlice {
+						n++
+						k++
+						r.Check(len(x.Elts) > 0, "frontier/non-empty-path", fmt.Sprintf("%s path literal #%d", ctx.FuncName(obj), k), x.Pos(), "the literal has elements",
+							fmt.Sprintf("%s builds an empty ast.Path: Last() / RemoveLast() on it index out of range", ctx.FuncName(obj)))
+					}
+				}
+			case *ast.ReturnStmt:
+				if returnsPathErr && len(x.Results) == 2 && isNilIdent(info, x.Results[1]) && isNilIdent(info, x.Results[0]) {
+					r.Bad("frontier/non-empty-path", ctx.FuncName(obj)+" returns a nil path without error", x.Pos(), ctx.FuncName(obj)+" returns a nil ast.Path together with a nil error: callers take its last element")
+				}
+			}
+			return true
+		})
+	})
+	r.Count("ast.Path literals", n)
+	r.Floor("ast.Path literals", 3)
+}
